@@ -22,8 +22,8 @@ def expectedU : List (String × String) := [
   ("decimal", "NumberUnmarshaller"),
   ("fraction", "NumberUnmarshaller"),
   ("uuid", "UUIDUnmarshaller"),
-  ("purepath", "CastUnmarshaller"),
-  ("path", "CastUnmarshaller"),
+  ("purepath", "PathUnmarshaller"),
+  ("path", "PathUnmarshaller"),
   ("pattern", "PatternUnmarshaller"),
   ("date", "DateUnmarshaller"),
   ("datetime", "DateTimeUnmarshaller"),
@@ -156,7 +156,7 @@ def firstDiff : List (String × String) → List (String × String) → Option (
 def knownRoutines : List String :=
   ["NoOpUnmarshaller", "NoneTypeUnmarshaller", "BytesUnmarshaller", "StringUnmarshaller", "NumberUnmarshaller",
    "DateUnmarshaller", "DateTimeUnmarshaller", "TimeUnmarshaller", "TimeDeltaUnmarshaller", "UUIDUnmarshaller",
-   "PatternUnmarshaller", "CastUnmarshaller", "LiteralUnmarshaller", "UnionUnmarshaller",
+   "PatternUnmarshaller", "PathUnmarshaller", "CastUnmarshaller", "LiteralUnmarshaller", "UnionUnmarshaller",
    "SubscriptedMappingUnmarshaller", "SubscriptedIterableUnmarshaller", "SubscriptedIteratorUnmarshaller",
    "FixedTupleUnmarshaller", "StructuredTypeUnmarshaller", "DelayedUnmarshaller",
    "NoOpMarshaller", "NoneTypeMarshaller", "CastMarshaller", "ToStringMarshaller", "EnumMarshaller", "PatternMarshaller",
